@@ -165,6 +165,30 @@ def _ends(stmts):
     return False
 
 
+def _unroll_const_loops(stmts):
+    """`for x in (a, b, c): body` over a short tuple/list display, with x not rebound in the body, is the sequence of its iterations
+    (arises when a helper iterates over a sequence that the caller passes as a display)"""
+    out = []
+    for st in stmts:
+        for fld in ('body', 'orelse', 'finalbody'):
+            blk = getattr(st, fld, None)
+            if isinstance(blk, list) and blk and isinstance(blk[0], ast.stmt):
+                setattr(st, fld, _unroll_const_loops(blk))
+        if isinstance(st, ast.For) and isinstance(st.iter, (ast.Tuple, ast.List)) and 1 <= len(st.iter.elts) <= 8 and isinstance(st.target, ast.Name) and not st.orelse and not any(isinstance(x, (ast.Break, ast.Continue)) for x in ast.walk(st)) and not any(isinstance(x, ast.Name) and x.id == st.target.id and isinstance(x.ctx, ast.Store) for b in st.body for x in ast.walk(b)):
+            for e in st.iter.elts:
+                for b in st.body:
+                    nb = _Sub({st.target.id: e}).visit(_fcopy(b))
+                    for x in ast.walk(nb):
+                        if not hasattr(x, 'lineno'):
+                            x.lineno, x.col_offset, x.end_lineno, x.end_col_offset = st.lineno, 0, st.lineno, 0
+                        if not hasattr(x, 'src_file'):
+                            x.src_file = getattr(st, 'src_file', None)
+                    out.append(nb)
+        else:
+            out.append(st)
+    return out
+
+
 class Inliner(object):
     def __init__(self, port, ref):
         self.port = port
@@ -321,13 +345,17 @@ class Inliner(object):
         calls = self._calls_in(st, table, methods)
         if not calls:
             return None
-        # 1. expression-level wherever possible
-        new_st = self._expr_level(st, table, methods, where)
-        if new_st is not None:
-            return [new_st]
-        # 2. statement-level for the recognised call sites
         call = calls[0]
         fd, is_m = self._resolve(call, table, methods)
+        direct = (isinstance(st, (ast.Assign, ast.Return, ast.AugAssign)) and getattr(st, 'value', None) is call) or (isinstance(st, ast.Expr) and st.value is call)
+        has_locals = any(isinstance(x, ast.Assign) for x in ast.walk(fd))
+        # 1. expression-level wherever possible - except that a helper with local variables called as a whole statement is
+        #    spliced in as statements (an expression would repeat the definition of each local at every use)
+        if not (direct and has_locals and len(calls) == 1):
+            new_st = self._expr_level(st, table, methods, where)
+            if new_st is not None:
+                return [new_st]
+        # 2. statement-level for the recognised call sites
         # the call is the element of a list comprehension: write the comprehension as the loop it abbreviates first
         for lc in [x for x in ast.walk(st) if isinstance(x, ast.ListComp) and len(x.generators) == 1 and not x.generators[0].ifs and any(y is call for y in ast.walk(x.elt))]:
             self.counter += 1
@@ -374,7 +402,7 @@ class Inliner(object):
                         x.end_col_offset = 0
                     x.src_file = getattr(st, 'src_file', None)
             self.log.append('{}: call of new helper {}() at line {} inlined (statement level)'.format(where, fd.name, getattr(st, 'lineno', '?')))
-            return stmts
+            return _unroll_const_loops(stmts)
         if tail_call:
             return done(body + ([] if _ends(body) else [ast.Return(value=ast.Constant(value=None))]))
         if isinstance(st, ast.Expr) and st.value is call:
